@@ -5,6 +5,7 @@ import (
 	"fmt"
 	"math/rand"
 	"os"
+	"runtime"
 	"strconv"
 	"strings"
 	"time"
@@ -128,9 +129,18 @@ func flipSomeColours(r *rand.Rand, p ref.Pos) (ref.Pos, bool) {
 	return p, false
 }
 
+// c10Tournament: sessions as a match GUI drives them: a large hash table set once, ucinewgame (often twice)
+// before every game.
+var c10Tournament bool
+
 func c10Session(c *fw.Ctx, r *rand.Rand, idx int) {
 	rc := &recipes[[]int{0, 0, 1, 2, 3}[r.Intn(5)]]
 	s := newUCISession(rc, engine.Options{Depth: 1, Hash: 0}, 0, false, 1, false)
+	tournament := c10Tournament && r.Intn(2) == 0
+	if tournament {
+		s.send("setoption name Hash value 256")
+		c.Count("tournament_sessions", 1)
+	}
 	what := func() string { return fmt.Sprintf("engine %s: %s", rc.name, s.transcript(16)) }
 	if _, ok := s.sync(); !ok {
 		c.Violate("position:no-readyok", "no readyok after start-up: %s", what())
@@ -145,7 +155,16 @@ func c10Session(c *fw.Ctx, r *rand.Rand, idx int) {
 			return false
 		}
 		c.Count("cmd_"+kind, 1)
-		return compareEngine(c, s, g, fmt.Sprintf("after %s command: %s", kind, what()))
+		if !compareEngine(c, s, g, fmt.Sprintf("after %s command: %s", kind, what())) {
+			return false
+		}
+		if r.Intn(4) == 0 {
+			// ... and it stays that way while nothing is sent (no late effect of an earlier command)
+			time.Sleep(time.Duration(1+r.Intn(40)) * time.Millisecond)
+			c.Count("settled_rechecks", 1)
+			return compareEngine(c, s, g, fmt.Sprintf("some milliseconds after the %s command was acknowledged, nothing sent since: %s", kind, what()))
+		}
+		return true
 	}
 	if !apply(cur.cmd(startposOK), cur, "fresh") {
 		s.shutdown(true)
@@ -154,6 +173,9 @@ func c10Session(c *fw.Ctx, r *rand.Rand, idx int) {
 	n := 2 + r.Intn(10)
 	for step := 0; step < n; step++ {
 		kind := r.Intn(14)
+		if tournament && r.Intn(3) == 0 {
+			kind = 8
+		}
 		next := cur
 		line := ""
 		name := ""
@@ -201,8 +223,11 @@ func c10Session(c *fw.Ctx, r *rand.Rand, idx int) {
 		case 7: // the same line spelled the other way (startpos <-> fen)
 			startposOK = !startposOK
 			line, name = cur.cmd(startposOK), "respelled"
-		case 8: // ucinewgame in between
+		case 8: // ucinewgame in between (sometimes twice in a row, as GUIs do between matches)
 			s.send("ucinewgame")
+			if r.Intn(3) == 0 || tournament {
+				s.send("ucinewgame")
+			}
 			if r.Intn(2) == 0 {
 				next = randomLine(r, r.Intn(100))
 			}
@@ -252,7 +277,7 @@ func c10Session(c *fw.Ctx, r *rand.Rand, idx int) {
 			line, name = next.cmd(false), "case-flip"
 		case 12: // an option set between two position commands is not a position command: the game stays
 			opt := []string{
-				fmt.Sprintf("setoption name Hash value %d", []int{0, 1, 2, 4, 8}[r.Intn(5)]),
+				fmt.Sprintf("setoption name Hash value %d", []int{0, 1, 2, 4, 8, 256}[r.Intn(6)]),
 				fmt.Sprintf("setoption name Noise value %d", []int{0, 5, 50}[r.Intn(3)]),
 				fmt.Sprintf("setoption name Depth value %d", 1+r.Intn(3)),
 				"setoption name OwnBook value false",
@@ -441,19 +466,27 @@ func init() {
 		Level:       "exploration",
 		Race:        true,
 		Technique:   "runtime reference-model monitor: after every position/ucinewgame command (synchronised by isready/readyok) the engine's game is compared with the game the command describes, built from scratch, and probed for its future repetition behaviour",
-		Rule:        "sessions of 3-13 commands: fresh startpos/FEN lines with 0-40 moves, extension by 1-4 moves, verbatim repeat, odd white space, truncation, different last move, respelling startpos<->fen, ucinewgame, FEN whose clock digits extend the previous FEN, searches and option changes (Hash, Noise, Depth, OwnBook) in between; after each command: Engine.Position() vs oracle FEN and full board snapshot (position, side, hash, clocks, ply, castled flags, last moves, result) vs a board set up from scratch; at the end the line is extended by reversible shuffles until the oracle counts three occurrences: the engine's game must report the draw at that ply and not earlier; stdin: an engine wired like cmd/*/main.go (ReadStdinLines -> driver) with standard input replaced by a pipe, position lines of 30-1500 plies (up to ~8 KiB), LF/CRLF, last line without newline; distinct = distinct session transcripts",
+		Rule:        "sessions of 3-13 commands: fresh startpos/FEN lines with 0-40 moves, extension by 1-4 moves, verbatim repeat, odd white space, truncation, different last move, respelling startpos<->fen, ucinewgame, FEN whose clock digits extend the previous FEN, searches and option changes (Hash, Noise, Depth, OwnBook) in between; after each command: Engine.Position() vs oracle FEN and full board snapshot (position, side, hash, clocks, ply, castled flags, last moves, result) vs a board set up from scratch; at the end the line is extended by reversible shuffles until the oracle counts three occurrences: the engine's game must report the draw at that ply and not earlier; sessions1p: the same sessions with GOMAXPROCS(1); stdin: an engine wired like cmd/*/main.go (ReadStdinLines -> driver) with standard input replaced by a pipe, position lines of 30-1500 plies (up to ~8 KiB), LF/CRLF, last line without newline; distinct = distinct session transcripts",
 		Assumptions: []string{"commands are well-formed position lines (malformed ones are C16's subject)"},
 		Setup:       validateOracle,
 		Timeout:     minutes(15, 120),
 		Cases: func(tier string, seed int64) []fw.Case {
 			l := mkCases(nil, "sessions", 64, seed, pick(tier, 5, 300))
+			l = mkCases(l, "sessions1p", 8, seed, pick(tier, 6, 150))
 			return mkCases(l, "stdin", 8, seed, pick(tier, 3, 60))
 		},
 		Floors: func(string) map[string]int64 {
-			return map[string]int64{"sessions": 200, "state_checks": 1500, "cmd_extension": 100, "cmd_repeat": 50, "cmd_whitespace": 50, "cmd_truncation": 50, "cmd_fen-prefix-trap": 50, "cmd_after-ucinewgame": 50, "cmd_fen-of-current": 50, "cmd_case-flip": 30, "cmd_setoption-in-between": 50, "repetition_probes_reached": 100, "stdin_lines": 40, "stdin_lines_over_4k": 10}
+			return map[string]int64{"sessions": 200, "state_checks": 1500, "cmd_extension": 100, "cmd_repeat": 50, "cmd_whitespace": 50, "cmd_truncation": 50, "cmd_fen-prefix-trap": 50, "cmd_after-ucinewgame": 50, "cmd_fen-of-current": 50, "cmd_case-flip": 30, "cmd_setoption-in-between": 50, "repetition_probes_reached": 100, "stdin_lines": 40, "settled_rechecks": 100, "stdin_lines_over_4k": 10}
 		},
 		Run: func(c *fw.Ctx, cs fw.Case) {
 			r := cs.Rand()
+			if cs.Kind == "sessions1p" {
+				// the same sessions on a single processor (a one-CPU container): goroutines the driver starts
+				// run only when the command loop blocks, which reorders everything that was left to chance
+				defer runtime.GOMAXPROCS(runtime.GOMAXPROCS(1))
+				c10Tournament = true
+				defer func() { c10Tournament = false }()
+			}
 			for i := 0; i < cs.N; i++ {
 				if cs.Kind == "stdin" {
 					c10Stdin(c, r, cs.Idx*1000+i)
